@@ -451,7 +451,7 @@ func init() {
 		Shape:       shapePol,
 		Real:        append([]string{"middleware basic auth, time-frame allow, ruleset regexp matcher, hostsfile aliases, fifo modifier groups, http_proxy_errors mapping"}, realForwarder...),
 		Stub:        append([]string{"hosts file -> generated file with extra loopback aliases (hostsfile.Location)"}, stubCommon...),
-		Rule:        "every subset of {basic auth, deny-domains (include/exclude regexps), localhost denial, allowed time frame} x route {direct, upstream proxy, inside MITM}; 1-3 connections x 1-5 requests (plain in both forms, CONNECT) to hosts from allowed / deny-list / localhost-family (case variants, IPv4/IPv6 loopback and unspecified literals, hosts-file aliases, look-alikes) with and without ports; credential variants (absent, right, scheme case, prefix/suffix/case variants, no colon, bad base64, wrong scheme, two fields); simulated clock moved between requests incl. 1 ns around hour boundaries. Recorder nodes listen on every address a request could go to; oracle = reference policy model + taint (token, unique host) over all recorder bytes and the dial ledger. Non-trivial = every request answered and judged.",
+		Rule:        "every subset of {basic auth, deny-domains (include/exclude regexps), localhost denial, allowed time frame} x route {direct, upstream proxy, inside MITM}; 1-3 connections x 1-5 requests (plain in both forms, CONNECT) to hosts from allowed / deny-list / localhost-family (case variants, IPv4/IPv6 loopback and unspecified literals, hosts-file aliases, look-alikes) with and without ports; credential variants (absent, right, scheme case, prefix/suffix/case variants, no colon, bad base64, wrong scheme, two fields); simulated clock moved between requests incl. 1 ns around hour boundaries. Recorder nodes listen on every address a request could go to; oracle = reference policy model + taint (token, unique host) over all recorder bytes and the dial ledger. Non-trivial = every request answered and judged. Later additions: IPv4-mapped IPv6 loopback literals, hosts-file aliases in capitals and on the ::1 line, credential storms, local time zones.",
 		Assumptions: []string{"when several controls fail any of their status codes is accepted; with two Proxy-Authorization fields of which exactly one is right, either outcome is accepted (the statement fixes neither)"},
 	})
 }
